@@ -130,7 +130,7 @@ func (h *Header) Contains(h2 *Header) bool {
 		}
 		match := false
 		for _, l := range h.Links {
-			if l != nil && l.Key == l2.Key && l.URL == l2.URL {
+			if l != nil && *l == *l2 {
 				match = true
 				break
 			}
